@@ -58,7 +58,11 @@ def _treat_impl_comment(block: ImplicitComment, bibtex_format: "BibtexFormat") -
 
 
 def _treat_expl_comment(block: ExplicitComment, bibtex_format: "BibtexFormat") -> List[str]:
-    return ["@comment{", block.comment, "}\n"]
+    comment = block.comment
+    if comment.endswith("\\"):
+        # Make sure that the closing bracket is not escaped by the trailing backslash
+        comment += " "
+    return ["@comment{", comment, "}\n"]
 
 
 def _treat_failed_block(block: ParsingFailedBlock, bibtex_format: "BibtexFormat") -> List[str]:
